@@ -406,6 +406,52 @@ def check_population_sizes(h: Harness):
                        f"order, or unevaluated members", {"n": n})
 
 
+def check_cooperative_gp(h: Harness):
+    """CooperativeGP evolves two species in turn, each by a genetic-programming run with ITS configured population size: every
+    generation of species k's runs -- what the step receives, what it is asked for and what it yields -- has population{k}_size
+    individuals"""
+    from geneticengine.algorithms.gp.cooperativegp import CooperativeGP
+    from geneticengine.algorithms.gp.structure import GeneticStep
+    from geneticengine.evaluation.budget import EvaluationBudget
+
+    class Tap(GeneticStep):
+        def __init__(self, inner, log):
+            self.inner, self.log = inner, log
+
+        def iterate(self, problem, evaluator, representation, random, population, target_size, generation):
+            pop = list(population)
+            out = list(self.inner.apply(problem, evaluator, representation, random, iter(pop), target_size, generation))
+            self.log.append((len(pop), target_size, len(out)))
+            yield from out
+
+    rng = h.rng
+    for (n1, n2) in [(5, 8), (9, 4), (6, 6), (3, 11)]:
+        g, r, rep1 = sc.tree_setup(rng.randrange(1000))
+        _, _, rep2 = sc.tree_setup(rng.randrange(1000))
+        rep2 = TreeBasedRepresentation(g, MaxDepthDecider(r, g, 4))
+        logs = ([], [])
+        desc = f"CooperativeGP(population1_size={n1}, population2_size={n2}, coevolutions=2)"
+        replay = {"population1_size": n1, "population2_size": n2}
+        try:
+            co = CooperativeGP(g, g, lambda a, b_: float(sc.count_nodes(a) - sc.count_nodes(b_)), rep1, rep2, population1_size=n1, population2_size=n2,
+                               coevolutions=2, random=r,
+                               kwargs1={"budget": EvaluationBudget(4 * n1), "step": Tap(default_generic_programming_step(), logs[0])},
+                               kwargs2={"budget": EvaluationBudget(4 * n2), "step": Tap(default_generic_programming_step(), logs[1])})
+            co.search()
+        except Exception as e:  # noqa: BLE001
+            h.fail("CooperativeGP.search", "raises", f"{desc}: {type(e).__name__}: {e}"[:300], replay)
+            continue
+        h.count("cooperative-gp-runs")
+        h.seen(f"cooperative:{n1}:{n2}", nontrivial=True)
+        for species, (n, log) in enumerate(zip((n1, n2), logs), start=1):
+            if not log:
+                h.fail("CooperativeGP.search", "generation-size", f"{desc}: species {species} never ran a generation", replay)
+                continue
+            for (got, asked, made) in log:
+                h.holds("CooperativeGP.search", "generation-size", ["prop_gen_counts", n, [got, asked, made]],
+                        f"{desc}: a generation of species {species} (configured with {n} individuals) received {got}, was asked for {asked} and produced {made}", replay)
+
+
 def check_initialisers(h: Harness):
     for setup, tag in ((sc.tree_setup(h.seed), ""), (sc.tree_setup_tight(h.seed), ":limit=minimum=2"), (sc.tree_setup_tight(h.seed, sc.Top3), ":limit=minimum=3")):
         check_initialisers_on(h, setup, tag)
@@ -589,5 +635,6 @@ def run(h: Harness):
     check_evaluate_step(h)
     check_initialisers(h)
     check_population_sizes(h)
+    check_cooperative_gp(h)
     check_gp_stub(h)
     check_gp_tree(h)
